@@ -173,13 +173,30 @@ class World:
             builtins._xv_script = {"a": [s[0] for s in seq],
                                    "b": [s[1] for s in seq]}
             try:
-                crop = self.s.Crop(name="k", parent_dir=self.d, batchsize=bs)
+                # (one long-lived Crop object per batch size is re-used for
+                # every sow cycle, as in a notebook session)
+                if not hasattr(self, "crops"):
+                    self.crops = {}
+                # (keyed by n as well: a sown Crop object keeps its number of
+                # batches, so it is only re-used for sweeps of the same size)
+                if (bs, n) not in self.crops:
+                    self.crops[bs, n] = self.s.Crop(
+                        name="k%d_%d" % (bs, n), parent_dir=self.d,
+                        batchsize=bs)
+                crop = self.crops[bs, n]
+                if crop.is_prepared():
+                    crop.missing_results()
                 crop.sow_samples(n, verbosity=0)
                 crop.grow_missing(verbosity=0)
-                last = xyz.Crop(name="k", parent_dir=self.d).reap()
-                # the reaping session's sampler is the un-pickled one
+                if len(before) % 2:
+                    last = crop.reap()
+                else:
+                    last = xyz.Crop(name="k%d_%d" % (bs, n),
+                                    parent_dir=self.d).reap()
+                # (the table was written by the crop's own sampler)
                 self.s = self.new_sampler()
             except Exception as e:
+                self.last = self.s
                 return [("raised:" + type(e).__name__,
                          "sow_samples/grow/reap raised %r" % e)]
             new_rows = [self.expect_row(s[0], s[1]) for s in seq]
